@@ -351,11 +351,13 @@ impl<'a> Printer<'a> {
         v.extend(r.v6.iter().map(|(a, b)| format!("(false, {}, {})", a, b)));
         format!("[{}]", v.join("; "))
     }
-    fn cert(&self, c: &CertTruth) -> String {
+    /// `ranges`: only CA / TA certificates need their address ranges (unsafe-VRP filter)
+    fn cert(&self, c: &CertTruth) -> String { self.cert_r(c, c.subject.is_some()) }
+    fn cert_r(&self, c: &CertTruth, ranges: bool) -> String {
         let subject = c.subject.as_ref().and_then(|s| self.ca_index.get(s)).copied().unwrap_or(0);
         format!("(Build_cert {} {} {} {} {} {} {} {} {})",
                 c.key, subject, coq_bool(c.decodes), coq_bool(c.sig_ok), coq_bool(c.res_within), coq_bool(c.valid_now),
-                coq_bool(c.crl_uri_ok), c.serial, self.ranges(&c.effective))
+                coq_bool(c.crl_uri_ok), c.serial, if ranges { self.ranges(&c.effective) } else { "[]".into() })
     }
     fn vrp(v: &Vrp) -> String { format!("IVrp {} {} {} {} {}", coq_bool(v.v4), v.addr, v.len, v.max_len, v.asn) }
     fn obj(&self, o: &ObjTruth) -> String {
